@@ -255,7 +255,7 @@ pub struct Op {
     pub p: u64,
     pub dataseed: u64,
     /// NewYuv: 0 any valid code, 1 legal (limited) range, 2 one out-of-range visible sample, 3 extremes
-    /// NewFloat: 0 unit cube, 1 [-0.5,1.5], 2 special values, 3 HSL ranges
+    /// NewFloat: 0 unit cube, 1 [-0.5,1.5], 2 special values, 3 HSL ranges, 4 arbitrary bit patterns
     pub datamode: u64,
     /// NewYuv: 0 = leave v_frame's default padding (128), else seed for padding contents
     pub padseed: u64,
@@ -816,7 +816,11 @@ impl Gen<'_> {
         } else if class == CL_HSL && self.r.pct(70) {
             3
         } else if self.r.pct(special) {
-            2
+            if self.r.pct(35) {
+                4
+            } else {
+                2
+            }
         } else if self.r.pct(25) {
             1
         } else {
@@ -939,7 +943,12 @@ pub fn generate(seed: u64, prof: Profile, miri: bool) -> RunTrace {
     let mut r = Rng::new(seed ^ 0xd51_0000_0000 ^ (prof as u64) << 56);
     let slots = if miri { 6 } else { r.range(6, 12) };
     let maxdim = if miri {
-        r.range(1, 4)
+        // mostly tiny; a quarter of the workloads reach a few dozen pixels (size thresholds)
+        if r.pct(25) {
+            r.range(5, 8)
+        } else {
+            r.range(1, 4)
+        }
     } else {
         match r.below(10) {
             0..=5 => r.range(2, 8),
